@@ -74,6 +74,8 @@ type solverSpec struct {
 var solvers = []solverSpec{
 	{"z3new", func(f string, s int) []string { return []string{"z3-new", fmt.Sprintf("-T:%d", s), f} }},
 	{"cvc5", func(f string, s int) []string { return []string{"cvc5", fmt.Sprintf("--tlimit=%d", s*1000), f} }},
+	// same z3 5.1.0 with the alternative arithmetic solver: decides Real-valued array comparisons on which the default loops
+	{"z3new-a2", func(f string, s int) []string { return []string{"z3-new", fmt.Sprintf("-T:%d", s), "smt.arith.solver=2", f} }},
 }
 
 // z3 4.8.12 (/usr/bin/z3) is NOT part of the deciding portfolio: on the vacuity query of
